@@ -261,7 +261,7 @@ theorem closeImmediate_env {b : Builder} (sp : StrSpan) :
   unfold Builder.closeImmediate
   dsimp only
   split
-  · exact leave_env (b := { b with nsStack := b.nsStack.tail }) b.curPath sp
+  · exact leave_env b.curPath sp
   · exact leave_env b.curPath sp
 
 theorem closeElement_trace (b : Builder) (pfx loc sp : StrSpan) :
@@ -292,10 +292,10 @@ theorem closeElement_trace (b : Builder) (pfx loc sp : StrSpan) :
         · refine ⟨fun b' h => (by cases h), fun e' env' h => ?_⟩
           simp only [Step.err.injEq] at h
           exact h.2.symm
-        · obtain ⟨l1, l2⟩ := leave_env (b := { b with env := env1, nsStack := b.nsStack.tail }) b.curPath sp
-          exact ⟨fun b' h => l1 b' h, fun e' env' h => absurd h (l2 e' env')⟩
-      · obtain ⟨l1, l2⟩ := leave_env (b := { b with env := env1 }) b.curPath sp
-        exact ⟨fun b' h => l1 b' h, fun e' env' h => absurd h (l2 e' env')⟩
+        · exact ⟨fun b' h => (leave_env b.curPath sp).1 b' h,
+            fun e' env' h => absurd h ((leave_env b.curPath sp).2 e' env')⟩
+      · exact ⟨fun b' h => (leave_env b.curPath sp).1 b' h,
+          fun e' env' h => absurd h ((leave_env b.curPath sp).2 e' env')⟩
 
 theorem attribute_env (b : Builder) (pfx loc value : StrSpan) :
     (∀ b', b.attribute pfx loc value = .ok b' → b'.env = b.env) ∧
